@@ -383,16 +383,22 @@ func (r *sysRun) start() bool {
 	return true
 }
 
-func (r *sysRun) cleanup() {
-	if r.tmpDir != "" {
-		os.Setenv("TMPDIR", r.oldTmp)
-		os.RemoveAll(r.tmpDir)
-	}
-	os.Stdout = r.realOut
+// collectOutput stops capturing stdout and loads what fzf printed.
+func (r *sysRun) collectOutput() {
 	if r.stdoutF != nil {
+		os.Stdout = r.realOut
 		r.stdoutF.Close()
 		r.stdout, _ = os.ReadFile(r.stdoutF.Name())
 		os.Remove(r.stdoutF.Name())
+		r.stdoutF = nil
+	}
+}
+
+func (r *sysRun) cleanup() {
+	r.collectOutput()
+	if r.tmpDir != "" {
+		os.Setenv("TMPDIR", r.oldTmp)
+		os.RemoveAll(r.tmpDir)
 	}
 	zsim.TTY = nil
 	zsim.Stdin = nil
